@@ -167,5 +167,6 @@ def chain_history(app, n, names=None, variant=0, intro_at=None, g2_evolutions=()
         last[m] = ('f%d' % i, is_char)
         evolutions.append({'label': 'e%d' % i, 'mutations': muts})
         if intro_at == i:
-            intro[i] = {'B': model('B', {'t': fld('Char', max_length=15)})}
+            # the new model carries a Meta.db_table_comment (ignored by SQLite, kept by signatures)
+            intro[i] = {'B': dict(model('B', {'t': fld('Char', max_length=15)}), comment='tags of items')}
     return AppHistory(app, names, base, evolutions, intro=intro)
